@@ -256,6 +256,8 @@ inline std::vector<Harness> harnesses() {
   h.push_back({"H5e", "zero-offset fixed name and UTC0 next to a real first load", {{L("Fixed/UTC+00:00:00"), L("UTC0")}, {L("A")}, {L("Fixed/UTC-00:00:00")}}, {}, false});
   h.push_back({"H6", "loads mixed with lookups on the shared Impl",
                {{L("A"), TP(-1900000000LL), CS(-1900000000LL - 18000)}, {L("A"), TP(-1700000000LL), CS(-1700000000LL - 18000), Op{Op::NEXT, "", -1950000000LL}}}, {}, true});
+  h.push_back({"H6b", "far-future (400-year shifted) and near lookups racing on a rule-extended zone",
+               {{L("R"), TP(20000000000LL), CS(1206838800LL + 7200 + 5), Op{Op::PREV, "", 1206838800LL}}, {L("R"), TP(1193533200LL - 1), TP(40000000000LL), CS(1193533200LL + 3600)}}, {}, true});
   h.push_back({"H7", "three threads looking up a pre-loaded zone (hint words)",
                {{L("R"), TP(1193533200LL), CS(1193533200LL + 3600)}, {L("R"), TP(1206838800LL + 5), CS(1206838800LL + 7200 + 5)}, {L("R"), TP(3000000000LL), Op{Op::FORMAT, "%Y-%m-%d %H:%M:%S %z", 1193533200LL}}}, {"R"}, false});
   return h;
